@@ -61,6 +61,10 @@ Definition w_clear_sa (f : flags) := mkFlags (f_before f) (f_after f) (f_alt f) 
 Definition w_clear_be (f : flags) := mkFlags (f_before f) (f_after f) (f_alt f) (f_sa f) [] (f_bx f) (f_balt f).
 Definition w_clear_bx (f : flags) := mkFlags (f_before f) (f_after f) (f_alt f) (f_sa f) (f_be f) [] (f_balt f).
 Definition w_clear_balt (f : flags) := mkFlags (f_before f) (f_after f) (f_alt f) (f_sa f) (f_be f) (f_bx f) None.
+(* clear_special_instr: clear_instr_at for SemanticAfter, BlockEntry, BlockExit, BlockAlt *)
+Definition w_clear_special (f : flags) := w_clear_balt (w_clear_bx (w_clear_be (w_clear_sa f))).
+(* delete_instr: empty_alternate_at, then clear_special_instr *)
+Definition w_delete (f : flags) := w_clear_special (w_alt_empty f).
 
 (* ---------- resolution state ---------- *)
 Record rstate := mkR {
@@ -88,9 +92,10 @@ Definition block_alt_case (is_else : bool) (orig : flags) (st : rstate) (w : fla
   match f_balt orig, r_del st with
   | Some alt, None =>
       let w1 := if is_nil alt then w_alt_empty w else w_alt_inject alt w in
-      let w2 := w_clear_balt w1 in
+      (* the replaced opener drops its block-alt and every other special mode it carries *)
+      let w2 := w_clear_special w1 in
       Some (set_del (Some (top (r_stack st))) (set_retain is_else st), w2)
-  | _, Some _ => Some (st, w_alt_empty w)
+  | _, Some _ => Some (st, w_delete w)
   | None, None => None
   end.
 
@@ -200,15 +205,15 @@ Definition rstep (last : nat) (idx : nat) (op : fop) (orig : flags) (st : rstate
           | Some d =>
               if Nat.eqb d block_id then
                 let st := set_del None st in
-                if negb (r_retain st) then (set_retain true st, w_alt_empty w)
+                if negb (r_retain st) then (set_retain true st, w_delete w)
                 else cont (set_retain true st) w
-              else (st, w_alt_empty w)
+              else (st, w_delete w)
           | None => cont st w
           end
       end
   | _ =>
       match r_del st with
-      | Some _ => (st, w_alt_empty w)
+      | Some _ => (st, w_delete w)
       | None => flag_stage op orig st w
       end
   end.
